@@ -139,7 +139,7 @@ def cli_part(ck, tier):
                           "examples": {u: [str(x)[:300] for x in r["detail"][u]] for u in unknown[:12]},
                           "project_files": sorted(os.listdir(projects[p]))[:80],
                           "how": "write the project (harness/c05proj.py ties_project with the run's seed, or testdata/python), run the "
-                                 "command twice, diff the JSON ignoring generated_at/duration/version"})
+                                 "command twice, diff the JSON ignoring generated_at/duration/version"}, independent=True)
     ck.cov["cli_runs"] = total_runs
     ck.cov["cli_option_sets"] = len(results)
     ck.cov["cli_sets_with_differences"] = differing
@@ -171,7 +171,7 @@ def race_part(ck, projects):
             if "DATA RACE" in p.stderr or p.returncode == 66:
                 ck.violation("the race detector reports a data race between the analyses on project %s (GOMAXPROCS=%d): the "
                              "report can depend on scheduling" % (pname, procs),
-                             {"kind": "data-race", "project": pname, "stderr": p.stderr[-3000:]})
+                             {"kind": "data-race", "project": pname, "stderr": p.stderr[-3000:]}, independent=True)
     ck.cov["race_runs"] = runs
 
 
@@ -448,7 +448,7 @@ def sites_part(ck, tier, model_ok):
                 reported.add(site)
                 ck.violation("emission site %s gives different output for two arrival orders of the same input" % site,
                              {"kind": "site-order-dependence", "request": req, "outputs": outs_[:6], "tops": tops and tops[:6],
-                              "how": "echo '<request>' | pyscn-verif"})
+                              "how": "echo '<request>' | pyscn-verif"}, independent=True)
             continue
         impl = outs_[0]
         if not model_ok:
@@ -506,7 +506,7 @@ def sites_part(ck, tier, model_ok):
                 ck.known_finding(e)
             else:
                 ck.violation("float sums over ModuleMetrics differ between two runs on the same input",
-                             {"kind": "site-order-dependence", "request": req, "outputs": outs_[:6]})
+                             {"kind": "site-order-dependence", "request": req, "outputs": outs_[:6]}, independent=True)
             continue
         ms = sorted(req["metrics"], key=lambda m: m["Name"].encode())
         n = float(len(ms))
@@ -566,7 +566,7 @@ def depth_repeat_part(ck, tier):
             bad += 1
             if bad <= 2:
                 ck.violation("the maximum dependency depth of one import graph differs between repetitions of the same computation: %s "
-                             "(%d modules, edges %s)" % (vals, n, e), {"kind": "maxdepth-repeat", "modules": n, "edges": e, "values": vals})
+                             "(%d modules, edges %s)" % (vals, n, e), {"kind": "maxdepth-repeat", "modules": n, "edges": e, "values": vals}, independent=True)
     return len(graphs) * reps
 
 
